@@ -47,7 +47,7 @@ func (x *World) res(n int) *resAccess {
 			return 0, false
 		}
 	case 1:
-		m := ecs.NewResource[res1](x.W)
+		m := ecs.Resource[res1]{}.New(x.W) // the New method form of the constructor
 		a.add, a.remove, a.has = func(v int64) { m.Add(&res1{V: v}) }, m.Remove, m.Has
 		a.get = func() (int64, bool) {
 			if p := m.Get(); p != nil {
@@ -65,7 +65,7 @@ func (x *World) res(n int) *resAccess {
 			return 0, false
 		}
 	default:
-		m := ecs.NewResource[res3](x.W)
+		m := ecs.Resource[res3]{}.New(x.W)
 		a.add, a.remove, a.has = func(v int64) { m.Add(&res3{V: v}) }, m.Remove, m.Has
 		a.get = func() (int64, bool) {
 			if p := m.Get(); p != nil {
@@ -184,6 +184,7 @@ const (
 	MUnsafeGet    = 31
 	MUnsafeHas    = 32
 	MUnsafeGetRel = 33
+	MEmit         = 40 // Event.Emit for the handle (the zero entity only together with For(components))
 )
 
 func (x *World) runInvalid(op *model.Op, res *model.Result) *Violation {
@@ -245,6 +246,12 @@ func (x *World) runInvalid(op *model.Op, res *model.Result) *Violation {
 			u.Has(h, x.Env.ID(tuple[0]))
 		case op.N == MUnsafeGetRel:
 			u.GetRelation(h, x.Env.ID(tuple[0]))
+		case op.N == MEmit:
+			ev := x.W.Event(x.events[model.EvCustom])
+			if op.Cs != 0 {
+				api.Spread(op.Cs.List(), func(s []ecs.Comp) { ev = ev.For(s...) })
+			}
+			ev.Emit(h)
 		}
 	case InvAddHas:
 		h := x.H[op.E]
